@@ -404,6 +404,39 @@ type typedArgs struct {
 	Valid bool   `json:"valid"`
 	Form  string `json:"form"`          // var | default | split
 	Dot   bool   `json:"dot,omitempty"` // the service is called "sv.c": the walk must escape the dot in the path
+	// where the attribute lives: "" = the main file; include | include-long | include-nested = a file reached through
+	// `include` (short syntax, long syntax, included by an included file); extends = the file named by `extends.file`.
+	// Every file of a load is interpolated with the same cast table, so literal ≡ variable must hold there too.
+	Where string `json:"where,omitempty"`
+}
+
+// typedFiles distributes the document over the files of the load.
+func typedFiles(a typedArgs, d map[string]any) map[string]string {
+	switch a.Where {
+	case "include":
+		return map[string]string{"compose.yaml": emitYAML(map[string]any{"include": []any{"inc.yaml"}}), "inc.yaml": emitYAML(d)}
+	case "include-long":
+		return map[string]string{"compose.yaml": emitYAML(map[string]any{"include": []any{map[string]any{"path": "inc.yaml"}}, "services": map[string]any{"main": map[string]any{"image": "img"}}}), "inc.yaml": emitYAML(d)}
+	case "include-nested":
+		return map[string]string{
+			"compose.yaml": emitYAML(map[string]any{"include": []any{map[string]any{"path": []any{"mid.yaml"}}}}),
+			"mid.yaml":     emitYAML(map[string]any{"include": []any{"inc.yaml"}, "services": map[string]any{"mid": map[string]any{"image": "img"}}}),
+			"inc.yaml":     emitYAML(d),
+		}
+	case "extends":
+		name := "svc"
+		if a.Dot {
+			name = dottedService
+		}
+		main := core.DeepCopyVal(d).(map[string]any)
+		if svcs, ok := main["services"].(map[string]any); ok {
+			if _, ok := svcs[name]; ok {
+				svcs[name] = map[string]any{"extends": map[string]any{"file": "base.yaml", "service": name}}
+				return map[string]string{"compose.yaml": emitYAML(main), "base.yaml": emitYAML(d)}
+			}
+		}
+	}
+	return map[string]string{"compose.yaml": emitYAML(d)}
 }
 
 const dottedService = "sv.c"
@@ -438,23 +471,24 @@ func typedVarLeaf(form, text string) (string, map[string]string) {
 func realTyped(raw json.RawMessage) any {
 	var a typedArgs
 	json.Unmarshal(raw, &a)
-	mk := func(leaf any) string {
+	mk := func(leaf any) map[string]string {
 		d := place(typedContext(a.Pat), a.Pat, leaf)
 		typedSiblings(a.Pat, d)
 		if a.Dot {
 			renameService(d, "svc", dottedService)
 		}
-		return emitYAML(d)
+		return typedFiles(a, d)
 	}
 	out := map[string]any{}
 	if plainSafe(a.Text) {
-		out["A"] = loadDoc(mk(rawYAML(a.Text)), nil, false)
+		out["A"] = loadDocs(mk(rawYAML(a.Text)), nil, false)
 	}
-	out["Q"] = loadDoc(mk(a.Text), nil, false)
-	out["Qs"] = loadDoc(mk(a.Text), nil, true)
+	out["Q"] = loadDocs(mk(a.Text), nil, false)
+	out["Qs"] = loadDocs(mk(a.Text), nil, true)
 	leaf, env := typedVarLeaf(a.Form, a.Text)
-	out["V"] = loadDoc(mk(leaf), env, false)
-	out["doc"] = mk(leaf)
+	out["V"] = loadDocs(mk(leaf), env, false)
+	fs := mk(leaf)
+	out["doc"] = fs["compose.yaml"] + fs["mid.yaml"] + fs["inc.yaml"] + fs["base.yaml"]
 	_, inTable := loader.VerifCastTable()[tree.Path(a.Pat)]
 	out["in_table"] = inTable
 	return out
@@ -550,6 +584,9 @@ func judgeTyped(args, real, _ json.RawMessage) *core.Verdict {
 	}
 	tc := textClass(a.Kind, a.Text)
 	where := fmt.Sprintf("%s (%s) text %q form %s", a.Pat, a.Kind, a.Text, a.Form)
+	if a.Where != "" {
+		where += " in a file reached through " + a.Where
+	}
 	// (0) struct fields the Lean side lists as "not an attribute of the schema" (Props/C08.lean `notInSchema`) must indeed be
 	//     rejected when written as a literal
 	for _, np := range notInSchemaPaths {
@@ -660,6 +697,29 @@ func runC08Typed(ctx *core.Ctx) {
 			tt := valid[(i+k)%len(valid)]
 			ctx.Count("typed-dotted-service:" + kind)
 			ctx.Add("c08typed", typedArgs{Pat: p, Kind: kind, Text: tt.Text, Valid: true, Form: forms[(i+k)%len(forms)], Dot: true})
+		}
+	}
+	// the same with the attribute in a secondary file: include (short / long / nested) and extends.file
+	for i, p := range pats {
+		kind := leaves[p]
+		var valid []typedText
+		for _, tt := range typedTexts[kind] {
+			if tt.Valid && textClass(kind, tt.Text) == "plain" {
+				valid = append(valid, tt)
+			}
+		}
+		if len(valid) == 0 {
+			continue
+		}
+		for wi, w := range []string{"include", "include-long", "include-nested", "extends"} {
+			if w == "extends" && !strings.HasPrefix(p, "services.") {
+				continue
+			}
+			for k := 0; k < ctx.Pick(1, 3) && k < len(valid); k++ {
+				tt := valid[(i+wi+k)%len(valid)]
+				ctx.Count("typed-in-" + w + ":" + kind)
+				ctx.Add("c08typed", typedArgs{Pat: p, Kind: kind, Text: tt.Text, Valid: true, Form: forms[(i+wi+k)%len(forms)], Where: w})
+			}
 		}
 	}
 	ctx.Note("typed attribute paths enumerated by reflection: %d", len(pats))
